@@ -107,12 +107,31 @@ def gen_chart(rng, P):
   return chart
 
 
+def circuit_safe(chart):
+  """complete_circuit() is only asked of charts whose handlers cannot keep the queue non-empty for ever: every signal a handler
+  posts is one that no state answers with a transition or with a handler that posts or recalls in turn"""
+  posted = set()
+  for st, sg, lst in chart["eff"]:
+    for ef in lst:
+      if ef[0] in ("post_fifo", "post_lifo"):
+        posted.add(ef[1])
+      if ef[0] in ("recall", "defer"):
+        return False
+  for sg in posted:
+    k = chart["sigs"].index(sg)
+    if any(row[k][0] == "tran" for row in chart["react"]):
+      return False
+    if any(st and s2 == sg for st, s2, lst in chart["eff"] for ef in lst if ef[0] in ("post_fifo", "post_lifo")):
+      return False
+  return True
+
+
 def gen_ops(rng, chart, P):
   n, sigs, host = chart["n"], chart["sigs"], chart["host"]
   ops = [["start", rng.randint(1, n)]]
   w = dict(P["w_ops"])
   if host != "queued":
-    for k in ("step", "post", "defer", "recall", "scribble", "clear_spy", "clear_trace", "empty_rtc"):
+    for k in ("step", "post", "defer", "recall", "scribble", "clear_spy", "clear_trace", "empty_rtc", "circuit"):
       w[k] = 0
     w["dispatch"] = 60
   if chart.get("live_trace"):
@@ -150,4 +169,9 @@ def gen_ops(rng, chart, P):
       ops.append(["clear_trace"])
     elif k == "empty_rtc":
       ops.append(["next_rtc"])
+    elif k == "circuit":
+      # a few posts, then complete_circuit(): every step is recorded, and at its return the queue must be empty
+      for _ in range(rng.randint(1, 4)):
+        ops.append([rng.choice(["post_fifo", "post_lifo"]), rng.choice(sigs)])
+      ops.append(["complete_circuit"] if circuit_safe(chart) else ["next_rtc"])
   return ops
